@@ -16,6 +16,10 @@ use serde_json::json;
 pub enum Case {
     Curve { rule: u8, gaps: Vec<u8>, vset: u8 },
     IndexLeft { list: Vec<f64> },
+    /// bisection paths on long lists: [1, 2, .., len], every element, mid point and both outsides as query
+    IndexLeftLong { len: usize },
+    /// many nodes (9, 17, 33, ...): three supply orders, every node / mid / outside query
+    LongCurve { rule: u8, n: usize, vset: u8 },
     /// history independence: look-ups on curve A, then on curve B whose nodes have the same count, first and last
     /// date but different interior dates (gaps permuted), then on A again - all on one thread
     Interleave { rule: u8, gaps_a: Vec<u8>, gaps_b: Vec<u8>, python_facing: bool },
@@ -180,6 +184,56 @@ pub fn check(case: &Case, idx: u64, acc: &mut Acc) {
                 acc.sample(cj);
             }
         }
+        Case::IndexLeftLong { len } => {
+            let list: Vec<f64> = (1..=*len).map(|x| x as f64).collect();
+            let li: Vec<i64> = (1..=*len as i64).map(|x| 2 * x).collect();
+            acc.nontrivial();
+            for h in 1..=(2 * *len + 1) {
+                let v = h as f64 * 0.5;
+                acc.evals_add(2);
+                let first_ge = list.iter().position(|k| *k >= v).unwrap_or(list.len());
+                let want = (first_ge as i64 - 1).clamp(0, list.len() as i64 - 2) as usize;
+                let got = hooks::index_left_f64(&list, &v, None);
+                let gi = hooks::index_left_i64(&li, &(h as i64), None);
+                acc.outcome(&(*len, got));
+                if got != want || gi != want {
+                    acc.violate("index_left/long-list", idx, cj(), json!({"value": v, "want": want}), json!([got, gi]));
+                }
+            }
+            acc.sample(cj);
+        }
+        Case::LongCurve { rule, n, vset } => {
+            let rule = *rule as usize;
+            let gaps: Vec<u8> = (0..*n - 1).map(|i| ((i * 7 + 1) % 3) as u8).collect();
+            let xs = node_times(&gaps);
+            let ys: Vec<f64> = (0..*n).map(|k| VSETS[*vset as usize][k % 6] * (1.0 - 0.002 * k as f64)).collect();
+            let qs = queries(&xs);
+            let ident: Vec<usize> = (0..*n).collect();
+            let rev: Vec<usize> = (0..*n).rev().collect();
+            let shuf: Vec<usize> = (0..*n).map(|i| (i * 5 + 3) % *n).collect();
+            let mut orders = vec![ident.clone(), rev];
+            let mut chk = shuf.clone();
+            chk.sort();
+            if chk == ident {
+                orders.push(shuf);
+            }
+            acc.nontrivial();
+            for (oi, ord) in orders.iter().enumerate() {
+                for ctor in 0..2 {
+                    let got = if ctor == 0 { lookup_df(rule, &xs, &ys, ord, &qs) } else { lookup_py(rule, &xs, &ys, ord, &qs) };
+                    for (k, q) in qs.iter().enumerate() {
+                        acc.eval();
+                        let i = interval_of(&xs, *q);
+                        let want = closed_form::<f64>(rule, xs[0], xs[i], &ys[i], xs[i + 1], &ys[i + 1], *q);
+                        if got[k].1 != i || !close_scaled(got[k].0, want, 1e-12, want.abs()) {
+                            acc.violate(&format!("many-nodes/{}", RULES[rule]), idx, cj(), json!({"supply_order": oi, "query_ts": q, "want_interval": i, "want": want}), json!({"interval": got[k].1, "value": got[k].0}));
+                            break;
+                        }
+                    }
+                }
+            }
+            acc.sample(cj);
+        }
         Case::IndexLeft { list } => {
             let dup = list.windows(2).any(|w| w[0] == w[1]);
             for h in 1..=11 {
@@ -246,6 +300,16 @@ pub fn cases(tier: Tier) -> Vec<Case> {
             }
         }
     }
+    for len in 2..=tier.pick(48usize, 130usize) {
+        out.push(Case::IndexLeftLong { len });
+    }
+    for n in [7usize, 8, 9, 16, 17, 31, 32, 33, 64] {
+        for rule in 0..5u8 {
+            for vset in [0u8, 2] {
+                out.push(Case::LongCurve { rule, n, vset });
+            }
+        }
+    }
     // every non-decreasing list of length 2..L over {1..5}
     let lmax = tier.pick(9, 11);
     fn rec(cur: &mut Vec<f64>, len: usize, out: &mut Vec<Case>) {
@@ -281,7 +345,9 @@ pub fn run(ctx: &Ctx, replay_file: Option<String>) -> ! {
          value = closed form of the rule on that interval's two nodes (1e-12); a node's own value at a node; between \
          the two node values for linear / log-linear; identical (<= 4 ulp, same interval) for every supply \
          permutation. index_left directly: every non-decreasing list of length 2..9 (11) over {1..5} x every query in \
-         {0.5, 1, ..., 5.5}, f64 and i64. History independence: look-ups on curve A, then on a curve B with the same node count, first and \
+         {0.5, 1, ..., 5.5}, f64 and i64. Larger sizes on a menu: index_left on [1..len] for every len up to 48 (130) with every \
+         element / mid point as query; curves of 7, 8, 9, 16, 17, 31, 32, 33, 64 nodes in three supply orders. \
+         History independence: look-ups on curve A, then on a curve B with the same node count, first and \
          last date but permuted gaps, then A and B again, on one thread. Non-trivial: queries strictly between nodes; \
          lists of length >= 5; interleaved pairs.",
         json!({"cases": cs.len(), "max_nodes": ctx.tier.pick(5, 6)}),
